@@ -449,6 +449,9 @@ def densify(coords: CoordList, resolution: float) -> CoordList:
     def short_enough(p1, p2):
         return ((p1[0] - p2[0]) ** 2 + (p1[1] - p2[1]) ** 2) <= d2
 
+    if len(coords) == 0:  # an empty line or ring
+        return []
+
     new_coords = [coords[0]]
     for p1, p2 in zip(coords[:-1], coords[1:]):
         if not short_enough(p1, p2):
